@@ -44,6 +44,7 @@ std::string rstr(Rng& r)
 // only promised without one). With a small probability the value contains the complete three-byte separator: that is
 // the recorded finding class "value-contains-reserved-separator".
 bool g_sep_in_value = false;
+bool g_expect_error = false; // the statement just logged cannot be formatted: not judged itself
 std::string hstr(Rng& r)
 {
   static std::string const parts[] = {"\x01", "\x02", "\x03", "\x01\x02", "\x02\x03", "\x03\x02\x01", "\x7f", "\x80", "\xc3\xa9", "\xff", "\"", "\\", "\t", "\x1b[0m",
@@ -194,6 +195,95 @@ void build()
                          vals = {fmtquill::format("{}", a1), fmtquill::format("{}", b2), c3, fmtquill::format("{}", d4), fmtquill::format("{}", e5)};
                          LOGJ_INFO(g_lg, "five", a1, b2, c3, d4, e5);
                        }});
+  g_cat.push_back(Tmpl{"thirteen {a01}, {a02}, {a03}, {a04}, {a05}, {a06}, {a07}, {a08}, {a09}, {a10}, {a11}, {a12}, {a13}", "thirteen {}, {}, {}, {}, {}, {}, {}, {}, {}, {}, {}, {}, {}", {"a01", "a02", "a03", "a04", "a05", "a06", "a07", "a08", "a09", "a10", "a11", "a12", "a13"}, {"", "", "", "", "", "", "", "", "", "", "", "", ""}, false,
+                       [](Rng& r, std::string& text, std::vector<std::string>& vals)
+                       {
+                         int a01 = static_cast<int>(r.below(100000)) + 0;
+                         int a02 = static_cast<int>(r.below(100000)) + 1;
+                         int a03 = static_cast<int>(r.below(100000)) + 2;
+                         int a04 = static_cast<int>(r.below(100000)) + 3;
+                         int a05 = static_cast<int>(r.below(100000)) + 4;
+                         int a06 = static_cast<int>(r.below(100000)) + 5;
+                         int a07 = static_cast<int>(r.below(100000)) + 6;
+                         int a08 = static_cast<int>(r.below(100000)) + 7;
+                         int a09 = static_cast<int>(r.below(100000)) + 8;
+                         int a10 = static_cast<int>(r.below(100000)) + 9;
+                         int a11 = static_cast<int>(r.below(100000)) + 10;
+                         int a12 = static_cast<int>(r.below(100000)) + 11;
+                         int a13 = static_cast<int>(r.below(100000)) + 12;
+                         text = fmtquill::format("thirteen {}, {}, {}, {}, {}, {}, {}, {}, {}, {}, {}, {}, {}", a01, a02, a03, a04, a05, a06, a07, a08, a09, a10, a11, a12, a13);
+                         vals = {fmtquill::format("{}", a01), fmtquill::format("{}", a02), fmtquill::format("{}", a03), fmtquill::format("{}", a04), fmtquill::format("{}", a05), fmtquill::format("{}", a06), fmtquill::format("{}", a07), fmtquill::format("{}", a08), fmtquill::format("{}", a09), fmtquill::format("{}", a10), fmtquill::format("{}", a11), fmtquill::format("{}", a12), fmtquill::format("{}", a13)};
+                         LOGJ_INFO(g_lg, "thirteen", a01, a02, a03, a04, a05, a06, a07, a08, a09, a10, a11, a12, a13);
+                       }});
+  g_cat.push_back(Tmpl{"seventeen {b01}, {b02}, {b03}, {b04}, {b05}, {b06}, {b07}, {b08}, {b09}, {b10}, {b11}, {b12}, {b13}, {b14}, {b15}, {b16}, {b17}", "seventeen {}, {}, {}, {}, {}, {}, {}, {}, {}, {}, {}, {}, {}, {}, {}, {}, {}", {"b01", "b02", "b03", "b04", "b05", "b06", "b07", "b08", "b09", "b10", "b11", "b12", "b13", "b14", "b15", "b16", "b17"}, {"", "", "", "", "", "", "", "", "", "", "", "", "", "", "", "", ""}, false,
+                       [](Rng& r, std::string& text, std::vector<std::string>& vals)
+                       {
+                         int b01 = static_cast<int>(r.below(100000)) + 0;
+                         int b02 = static_cast<int>(r.below(100000)) + 1;
+                         int b03 = static_cast<int>(r.below(100000)) + 2;
+                         int b04 = static_cast<int>(r.below(100000)) + 3;
+                         int b05 = static_cast<int>(r.below(100000)) + 4;
+                         int b06 = static_cast<int>(r.below(100000)) + 5;
+                         int b07 = static_cast<int>(r.below(100000)) + 6;
+                         int b08 = static_cast<int>(r.below(100000)) + 7;
+                         int b09 = static_cast<int>(r.below(100000)) + 8;
+                         int b10 = static_cast<int>(r.below(100000)) + 9;
+                         int b11 = static_cast<int>(r.below(100000)) + 10;
+                         int b12 = static_cast<int>(r.below(100000)) + 11;
+                         int b13 = static_cast<int>(r.below(100000)) + 12;
+                         int b14 = static_cast<int>(r.below(100000)) + 13;
+                         int b15 = static_cast<int>(r.below(100000)) + 14;
+                         int b16 = static_cast<int>(r.below(100000)) + 15;
+                         int b17 = static_cast<int>(r.below(100000)) + 16;
+                         text = fmtquill::format("seventeen {}, {}, {}, {}, {}, {}, {}, {}, {}, {}, {}, {}, {}, {}, {}, {}, {}", b01, b02, b03, b04, b05, b06, b07, b08, b09, b10, b11, b12, b13, b14, b15, b16, b17);
+                         vals = {fmtquill::format("{}", b01), fmtquill::format("{}", b02), fmtquill::format("{}", b03), fmtquill::format("{}", b04), fmtquill::format("{}", b05), fmtquill::format("{}", b06), fmtquill::format("{}", b07), fmtquill::format("{}", b08), fmtquill::format("{}", b09), fmtquill::format("{}", b10), fmtquill::format("{}", b11), fmtquill::format("{}", b12), fmtquill::format("{}", b13), fmtquill::format("{}", b14), fmtquill::format("{}", b15), fmtquill::format("{}", b16), fmtquill::format("{}", b17)};
+                         LOGJ_INFO(g_lg, "seventeen", b01, b02, b03, b04, b05, b06, b07, b08, b09, b10, b11, b12, b13, b14, b15, b16, b17);
+                       }});
+  g_cat.push_back(Tmpl{"twentysix {c01}, {c02}, {c03}, {c04}, {c05}, {c06}, {c07}, {c08}, {c09}, {c10}, {c11}, {c12}, {c13}, {c14}, {c15}, {c16}, {c17}, {c18}, {c19}, {c20}, {c21}, {c22}, {c23}, {c24}, {c25}, {c26}", "twentysix {}, {}, {}, {}, {}, {}, {}, {}, {}, {}, {}, {}, {}, {}, {}, {}, {}, {}, {}, {}, {}, {}, {}, {}, {}, {}", {"c01", "c02", "c03", "c04", "c05", "c06", "c07", "c08", "c09", "c10", "c11", "c12", "c13", "c14", "c15", "c16", "c17", "c18", "c19", "c20", "c21", "c22", "c23", "c24", "c25", "c26"}, {"", "", "", "", "", "", "", "", "", "", "", "", "", "", "", "", "", "", "", "", "", "", "", "", "", ""}, false,
+                       [](Rng& r, std::string& text, std::vector<std::string>& vals)
+                       {
+                         int c01 = static_cast<int>(r.below(100000)) + 0;
+                         int c02 = static_cast<int>(r.below(100000)) + 1;
+                         int c03 = static_cast<int>(r.below(100000)) + 2;
+                         int c04 = static_cast<int>(r.below(100000)) + 3;
+                         int c05 = static_cast<int>(r.below(100000)) + 4;
+                         int c06 = static_cast<int>(r.below(100000)) + 5;
+                         int c07 = static_cast<int>(r.below(100000)) + 6;
+                         int c08 = static_cast<int>(r.below(100000)) + 7;
+                         int c09 = static_cast<int>(r.below(100000)) + 8;
+                         int c10 = static_cast<int>(r.below(100000)) + 9;
+                         int c11 = static_cast<int>(r.below(100000)) + 10;
+                         int c12 = static_cast<int>(r.below(100000)) + 11;
+                         int c13 = static_cast<int>(r.below(100000)) + 12;
+                         int c14 = static_cast<int>(r.below(100000)) + 13;
+                         int c15 = static_cast<int>(r.below(100000)) + 14;
+                         int c16 = static_cast<int>(r.below(100000)) + 15;
+                         int c17 = static_cast<int>(r.below(100000)) + 16;
+                         int c18 = static_cast<int>(r.below(100000)) + 17;
+                         int c19 = static_cast<int>(r.below(100000)) + 18;
+                         int c20 = static_cast<int>(r.below(100000)) + 19;
+                         int c21 = static_cast<int>(r.below(100000)) + 20;
+                         int c22 = static_cast<int>(r.below(100000)) + 21;
+                         int c23 = static_cast<int>(r.below(100000)) + 22;
+                         int c24 = static_cast<int>(r.below(100000)) + 23;
+                         int c25 = static_cast<int>(r.below(100000)) + 24;
+                         int c26 = static_cast<int>(r.below(100000)) + 25;
+                         text = fmtquill::format("twentysix {}, {}, {}, {}, {}, {}, {}, {}, {}, {}, {}, {}, {}, {}, {}, {}, {}, {}, {}, {}, {}, {}, {}, {}, {}, {}", c01, c02, c03, c04, c05, c06, c07, c08, c09, c10, c11, c12, c13, c14, c15, c16, c17, c18, c19, c20, c21, c22, c23, c24, c25, c26);
+                         vals = {fmtquill::format("{}", c01), fmtquill::format("{}", c02), fmtquill::format("{}", c03), fmtquill::format("{}", c04), fmtquill::format("{}", c05), fmtquill::format("{}", c06), fmtquill::format("{}", c07), fmtquill::format("{}", c08), fmtquill::format("{}", c09), fmtquill::format("{}", c10), fmtquill::format("{}", c11), fmtquill::format("{}", c12), fmtquill::format("{}", c13), fmtquill::format("{}", c14), fmtquill::format("{}", c15), fmtquill::format("{}", c16), fmtquill::format("{}", c17), fmtquill::format("{}", c18), fmtquill::format("{}", c19), fmtquill::format("{}", c20), fmtquill::format("{}", c21), fmtquill::format("{}", c22), fmtquill::format("{}", c23), fmtquill::format("{}", c24), fmtquill::format("{}", c25), fmtquill::format("{}", c26)};
+                         LOGJ_INFO(g_lg, "twentysix", c01, c02, c03, c04, c05, c06, c07, c08, c09, c10, c11, c12, c13, c14, c15, c16, c17, c18, c19, c20, c21, c22, c23, c24, c25, c26);
+                       }});
+  // a named statement that cannot be formatted (spec does not fit the type): written with the error text; the NEXT
+  // statement must be unaffected (expect_error: only the statement after it is judged)
+  g_cat.push_back(Tmpl{"bad {label:d} then {n}", "bad {:d} then {}", {"label", "n"}, {":d", ""}, false,
+                       [](Rng& r, std::string& text, std::vector<std::string>& vals)
+                       {
+                         std::string label = rstr(r) + "x";
+                         int n = static_cast<int>(r.below(1000));
+                         text = "<error text>";
+                         vals = {};
+                         g_expect_error = true;
+                         LOG_INFO(g_lg, "bad {label:d} then {n}", label, n);
+                       }});
 #undef I
 #undef D
 #undef S
@@ -248,6 +338,7 @@ int main(int argc, char** argv)
       std::vector<std::string> vals;
       recorder().clear();
       g_sep_in_value = false;
+      g_expect_error = false;
       t.log(r, text, vals);
       // the backend hands the message to the sinks without ONE trailing newline (the documented single-statement rule)
       if (!text.empty() && text.back() == '\n') text.pop_back();
@@ -260,7 +351,13 @@ int main(int argc, char** argv)
       std::string key;
       J wit;
       wit.str("template", t.fmt).str("positional", t.positional);
-      if (writes != 1 || !w) key = "statement-not-written-once";
+      if (g_expect_error)
+      {
+        // written once with the explanatory text, or skipped; its pairs are not judged
+        if (writes > 1 || (w && w->msg.rfind("[Could not format log statement", 0) != 0)) key = "unformattable-named-statement-not-replaced-by-error-text";
+        g_stats.add("unformattable_named_statements");
+      }
+      else if (writes != 1 || !w) key = "statement-not-written-once";
       else if (w->msg != text) { key = "named-args-message-differs-from-positional-formatting"; wit.str("got", w->msg).str("want", text); }
       else if (!w->has_named || w->named.size() != t.names.size()) { key = "named-args-pair-count-differs"; wit.unum("got", w->has_named ? w->named.size() : 0).unum("want", t.names.size()); }
       else
@@ -284,9 +381,10 @@ int main(int argc, char** argv)
       if (needs_escaping) g_stats.add("statements_with_values_that_need_json_escaping");
       if (g_sep_in_value) g_stats.add("statements_with_reserved_separator_in_a_value");
       // sidecar for the JSON judgement (done by the driver with Python's json module)
+      if (g_expect_error && writes == 0) { g_stats.sig("templates", t.fmt); continue; } // skipped entirely: no JSON line either
       std::string tmpl = t.fmt;
       for (auto& c : tmpl) if (c == '\n') c = ' ';
-      std::string line = "{\"message\":" + json_str(tmpl) + ",\"defect_class\":" + (t.defect_class ? "true" : "false") + ",\"needs_escaping\":" + (needs_escaping ? "true" : "false") + ",\"pairs\":[";
+      std::string line = "{\"message\":" + json_str(tmpl) + ",\"defect_class\":" + (t.defect_class ? "true" : "false") + ",\"needs_escaping\":" + ((needs_escaping || g_expect_error) ? "true" : "false") + ",\"pairs\":[";
       for (size_t k = 0; k < t.names.size(); ++k) line += std::string{k ? "," : ""} + "[" + json_str(t.names[k]) + "," + json_str(k < vals.size() ? vals[k] : "") + "]";
       line += "]}";
       g_expect << line << "\n";
